@@ -11,7 +11,8 @@ WIDEN_MAX = 60          # extra thorough-generator cases when the anchored sourc
 PROPS_FILE = "props/C11.v"
 IMPORTS = "C11_kalman"
 RULE = ("cases = static: Gaussian prior (Dw in 1..3) and N in 1..4 (quick) / 1..6 (thorough) linear-Gaussian observations with "
-        "individual (M_i, b_i, Sigma_i), Dy in 1..3 with Dy != Dw included, a random permutation of the update order; state "
+        "individual (M_i, b_i, Sigma_i), Dy in 1..3 with Dy != Dw included, a random permutation of the update order, the joint route "
+        "conditioning alternately by condition_on(Dw..Dw+Dy-1) and condition_on_explicit(-Dy..-1, 0..Dw-1); state "
         "space: random (A, b, Q, C, d, R), Dz, Dx in 1..2, T in 1..4 (quick) / 1..12 (thorough); non-trivial = N >= 2 or "
         "T >= 2; distinct = SHA1 of the input")
 EXPLANATION = ("model: the three routes (sequential conditional transformation + condition_on_x, joint transformation + "
@@ -178,7 +179,10 @@ def run_impl(d):
         p1, ev1 = seq(range(N)); p2, _ = seq(d["perm"])
         p3 = lin.impl_pdfv(d["prior"])
         for i, o in enumerate(obs):
-            p3 = conds[i].affine_joint_transformation(p3).condition_on(jnp.arange(Dw, Dw + Dy)).condition_on_x(jarr([o["y"]]))
+            j3 = conds[i].affine_joint_transformation(p3)
+            # the observed block addressed as Dw..Dw+Dy-1 (condition_on) or as the trailing coordinates -Dy..-1 (condition_on_explicit)
+            c3 = j3.condition_on(jnp.arange(Dw, Dw + Dy)) if i % 2 == 0 else j3.condition_on_explicit(jnp.arange(-Dy, 0), jnp.arange(Dw))
+            p3 = c3.condition_on_x(jarr([o["y"]]))
         bc, _ = lin.impl_cond(batch_cond(obs))
         lik = bc.set_y(jarr([o["y"] for o in obs])).product()
         m = lin.impl_pdfv(d["prior"]).multiply(lik)
